@@ -806,7 +806,7 @@ def op_open_w(w, op, mods):
     except Exception as e:
         run.event(op.get("c", 0), "open_w", p, "error(%s)" % type(e).__name__, "%s:%s" % (kind, mode))
         run.trans.add("%s|open_w|%s:%s|error" % (st, kind, mode))
-        if w.prop in ("C03", "C04"):
+        if w.prop in ("C01", "C03", "C04"):
             run.fail("rec.open_w.raises", _feat(m, kind=kind, mode=mode, exists=exists),
                      "%s(%s, %r) raised %r (file %s)" % (kind, p, mode, e, "exists" if exists else "does not exist"))
         return
@@ -915,7 +915,7 @@ def op_write(w, op, mods):
             h["last"] = "error"
             run.event(op.get("c", 0), "write", p, "error(%s)" % type(err).__name__)
             run.trans.add(st + "|write|error")
-            if w.prop in ("C03", "C04"):
+            if w.prop in ("C01", "C03", "C04"):
                 run.fail("rec.write.raises", feats, "%s(%r).write of a compatible chunk #%d (%d rows) raised %r"
                          % (h["kind"], h["mode"], len(m["chunks"]) + 1, tab.shape[0], err))
             w.files[p] = None
@@ -1113,7 +1113,7 @@ def op_append(w, op, mods):
         if err is not None:
             run.event(op.get("c", 0), "append", p, "error(%s)" % type(err).__name__, entry)
             run.trans.add("%s|append|%s|error" % (st, entry))
-            if w.prop in ("C03", "C04"):
+            if w.prop in ("C01", "C03", "C04"):
                 run.fail("rec.append.raises", feats, "%s of a compatible chunk to %s (%s) raised %r"
                          % (entry, p, "existing, %d rows" % w.nrows(m) if m else "not existing yet", err))
             _forget(w, p)
